@@ -569,6 +569,27 @@ fn cases_plain(tier: Tier) -> Vec<Case> {
         cfg.bc_step = 0x10;
         v.push(Case { label: format!("fatal-lane sequence {:?} (0 normal, 1 fatal APE, 2 absent per lane; lanes {}..{})", s, base, base + 2), cfg, key: stave_key(), frames, want });
     }
+    // ---- protocol-extension words that are warnings, not fatal states (0xF2 strip start, 0xFD and 0xFE data missing),
+    //      in front of the chip data of one lane, followed by an ordinary frame: the lane stays what it is
+    for ape in [alpide::APE_STRIP_START, alpide::APE_PE_DATA_MISSING, alpide::APE_OOT_DATA_MISSING] {
+        for lane_ix in 0..3usize {
+            for twice in [false, true] {
+                let mk = |with: bool| -> FrameSpec {
+                    let mut lanes: Vec<LaneSpec> = [3u8, 4, 5].iter().map(|l| ib_lane(*l, 0x52, &[ha[0]], None)).collect();
+                    if with {
+                        lanes[lane_ix].prefix = if twice { vec![ape, ape] } else { vec![ape] };
+                    }
+                    FrameSpec { lanes, nodata_before: false, split: None }
+                };
+                let f0 = mk(true);
+                let f1 = mk(false);
+                let want = vec![Some(expected_codes(&f0, &none, &stave_key())), Some(expected_codes(&f1, &none, &stave_key()))];
+                let mut cfg = ib_cfg();
+                cfg.bc_step = 0x10;
+                v.push(Case { label: format!("IB lane {} with the warning word {ape:#04x}{} in front of its chip data, then an ordinary frame", 3 + lane_ix, if twice { " twice" } else { "" }), cfg, key: stave_key(), frames: vec![f0, f1], want });
+            }
+        }
+    }
     // ---- fatal-lane memory across groups: a lane of group G announces a fatal state; afterwards a frame of two lanes
     //      that belong to ANOTHER group (right count - one lane is excused -, but the excused lane is not of their
     //      group: invalid grouping), framed by legal frames of G without the fatal lane
